@@ -54,7 +54,11 @@ CLAIMED = {
  "C18": dict(cat="fault_enumeration", tech="runtime monitor over the items yielded by HttpTransport::fetch and the request log of a scripted loopback HTTP server; suspected violations are re-run in isolation and reported only if they reproduce",
     text="Every fault script up to length 2/3 over {200 full, 200 stalled after k bytes, 500, 503, 403, 404, 410, 400, 416} with and without Accept-Ranges (literal and range-honouring flavours), tries 1..4, plus seeded scripts up to tries+2 for sizes 0..256 KiB. Rules: yielded bytes are a prefix of / equal to the resource, requests <= tries, Range only after an announcement, nothing after a terminal status, error kinds, completion when transient failures fit the budget.",
     note="Client timeout 700 ms; a time-out on a non-stalled response is inconclusive.", ref="§5 C18"),
+ "C20": dict(cat="exploration", tech="process-level runtime monitor: the tuftool binary built from /repo is driven through seeded command sequences; after every invocation the file is compared with its previous bytes and judged by an independent parser/verifier",
+    text="Sequences of 3..12 `tuftool root` invocations (init, add-key with RSA/Ed25519/ECDSA key files, remove-key, set-threshold, set-version up to 2^32, bump-version, expire, sign with key subsets / --ignore-threshold / --cross-sign). Rules: exit!=0 => file unchanged; exit 0 => parseable root, key ids = digest of key, content change => no signature left, plain successful sign => verifies under own root keys and threshold (independent aws-lc verification + Root::verify_role).",
+    note="Cross-sign sequences exempt from the self-verification clause until the next content change.", ref="§5 C20"),
 }
+
 
 
 
@@ -86,7 +90,7 @@ def main():
             na.append({"property_id": i, "reason": PENDING_REASON})
     m={
      "version":1,
-     "setup_cmd":"cd /verif/harness && CARGO_NET_OFFLINE=true CARGO_TARGET_DIR=/verif/.cache/target cargo build --offline --release --bin verif",
+     "setup_cmd":"cd /verif/harness && CARGO_NET_OFFLINE=true CARGO_TARGET_DIR=/verif/.cache/target cargo build --offline --release --bin verif --bin c15_client && cd /repo && CARGO_PROFILE_DEV_DEBUG=0 CARGO_PROFILE_DEV_OPT_LEVEL=1 CARGO_NET_OFFLINE=true CARGO_TARGET_DIR=/verif/.cache/target-repo2 cargo build --offline -p tuftool --bin tuftool && CARGO_NET_OFFLINE=true CARGO_TARGET_DIR=/verif/.cache/target-repo cargo build --offline --release -p olpc-cjson --bin olpc-cjson",
      "hooks":{
         "guard":"cargo feature `verif-hooks` on crate tough (off by default)",
         "enable":"harness/Cargo.toml depends on tough = { path = \"/repo/tough\", features = [\"http\", \"verif-hooks\"] }; ./check rebuilds from /repo's working tree on every invocation",
